@@ -370,8 +370,10 @@ pub fn run_session<C: Autocomplete + Help>(
     let on = |p: u32| en & p != 0;
 
     // separate exact-size heap allocations so that red-zone tools see every overrun
-    let mut cmd_buf = vec![0xAAu8; cfg.cmd].into_boxed_slice();
-    let mut hist_buf = vec![0xAAu8; cfg.hist].into_boxed_slice();
+    // what the buffers hold when the application hands them over is the application's business: garbage, zeroes, text and NULs
+    // left by an earlier Cli that used the same memory
+    let mut cmd_buf = crate::rig::filled(cfg.cmd, cfg.cmd + 3 * cfg.hist + cfg.prompt);
+    let mut hist_buf = crate::rig::filled(cfg.hist, cfg.hist + 5 * cfg.cmd + cfg.prompt + 1);
     let sink = MonSink::new();
     sink.0.borrow_mut().chunk = cfg.chunk;
     let mut proc = RecProc::new(cfg.script.clone(), cfg.set.parse_fn());
